@@ -55,26 +55,26 @@ type Ob struct {
 }
 
 type Engine struct {
-	Repo   string
-	Tags   string
-	GOARCH string
-	Fset   *token.FileSet
-	Pkgs   map[string]*packages.Package // by role
-	SSA    map[string]*ssa.Package      // by role
-	Prog   *ssa.Program
-	all    []*ssa.Function // source functions of the six packages (incl. closures)
-	allSet map[*ssa.Function]bool
-	cg     *callgraph.Graph
-	obs    []Ob
-	notes  []string
-	assume []string
-	astFn  map[*types.Func]*ast.FuncDecl
-	pdoms  map[*ssa.Function]*pdomInfo
-	files  int
-	reachMemo map[*ssa.Function]map[*ssa.Function]bool
+	Repo       string
+	Tags       string
+	GOARCH     string
+	Fset       *token.FileSet
+	Pkgs       map[string]*packages.Package // by role
+	SSA        map[string]*ssa.Package      // by role
+	Prog       *ssa.Program
+	all        []*ssa.Function // source functions of the six packages (incl. closures)
+	allSet     map[*ssa.Function]bool
+	cg         *callgraph.Graph
+	obs        []Ob
+	notes      []string
+	assume     []string
+	astFn      map[*types.Func]*ast.FuncDecl
+	pdoms      map[*ssa.Function]*pdomInfo
+	files      int
+	reachMemo  map[*ssa.Function]map[*ssa.Function]bool
 	calleeMemo map[ssa.CallInstruction][]*ssa.Function
-	core *coreState
-	locks map[string]*lockResult
+	core       *coreState
+	locks      map[string]*lockResult
 }
 
 func (e *Engine) note(format string, a ...interface{}) {
